@@ -41,6 +41,11 @@
 //!      `attrs.oid_relation` - additional signed attributes whose type is chosen by its relation to the mandatory
 //!      types (prefix, extension, one arc changed / dropped / inserted, same last arcs elsewhere, same last octet in
 //!      a multi-octet arc) x value shapes: must validate; in place of the mandatory attribute: must not.
+//!  (f) round 13:
+//!      `signer.call_count` - the number of earlier successful calls on ONE live instance of the library's own
+//!      SoftSigner: N messages in a row (260 quick; 2050 / 1026 thorough) on three instances (SignedMessage only;
+//!      the three kinds rotating; five other signer calls between any two messages, so that the number of handles
+//!      issued grows too), each on a background thread for the whole run, every message judged by the oracle of (a).
 //!
 //! Reference model: the condition vector itself (valid <=> all true).
 
